@@ -1222,3 +1222,86 @@ def run(idx, rep, tier):
                   'get(\'d\', dst, recurse=True) from a server whose '
                   'listing carries no sizes leaves every file empty and '
                   'reports success', k.loc(_fcp, _n))
+    rep.rule('C12.R24', 'the length of a READ reply is held against the '
+             'request: _SFTPFileReader.run_task compares len(data) with '
+             'size before it reports the block (a longer reply, or an '
+             'empty one for a non-empty request, is a bad message), and '
+             '_SFTPFileCopier.run_task does not write an empty block - a '
+             'zero-length DATA reply in the middle of a file would '
+             'otherwise count as a finished block and leave a zero-filled '
+             'gap with success reported')
+    for _q, _what in (('sftp._SFTPFileReader.run_task', 'reply'),
+                      ('sftp._SFTPFileCopier.run_task', 'block')):
+        _fr = k.func(_q)
+        _gr = k.cfg(_fr)
+        _tests = [a.id for a in _gr.nodes if a.kind == 'atom' and
+                  a.ast is not None and (
+                      ('data' in names_read(a.ast) and (
+                          'size' in names_read(a.ast) or
+                          isinstance(a.ast, ast.UnaryOp) or
+                          dotted(a.ast) == 'data')) or
+                      (dotted(a.ast) == 'size' and any(
+                          b.kind == 'atom' and b.ast is not None and
+                          'data' in names_read(b.ast)
+                          for b in _gr.nodes)))]
+        _rets = [n for n in _gr.nodes if n.kind == 'return']
+        _bad = None
+        for _r in _rets:
+            _bad = _bad or _gr.path(_gr.entry, _r.id, blocked_nodes=_tests,
+                                    follow_exc=False)
+        rep.check(bool(_tests) and _bad is None, 'C12.R24',
+                  key(_fr, f'{_what} length checked'),
+                  'a test of data against size on every path to the return',
+                  'READ at offset 32768 answered with a zero-length DATA '
+                  '(or with 5000 bytes too many): read() returns 66536 '
+                  'bytes with that block zero-filled (or shifted), '
+                  'get(sparse=True) reports success', _fr.loc(_fr.node))
+    rep.rule('C12.R25', 'the SFTP server awaits whatever awaitable an '
+             'SFTPServer method returns: results are tested with '
+             'inspect.isawaitable, never the narrower iscoroutine - a '
+             'write() returning a future (run_in_executor) must be awaited '
+             'before FX_OK is sent, or its ENOSPC is lost and put() '
+             'reports success with a block missing')
+    _nco = 0
+    for _f in k.idx.iter_funcs(['sftp']):
+        if not _f.qual.startswith('sftp.SFTPServerHandler.'):
+            continue
+        for _c in ast.walk(_f.node):
+            if isinstance(_c, ast.Call) and (dotted(_c.func) or '') in (
+                    'inspect.iscoroutine', 'asyncio.iscoroutine',
+                    'iscoroutine', 'inspect.iscoroutinefunction'):
+                rep.violation('C12.R25', key(_f, 'awaitable results awaited'),
+                              f'`{norm(_c)}` only recognises coroutines: a '
+                              'future returned by the server method is '
+                              'never awaited', _f.loc(_c))
+            if isinstance(_c, ast.Call) and (dotted(_c.func) or '') == \
+                    'inspect.isawaitable':
+                _nco += 1
+    rep.floor('C12.R25', 'awaitable tests in server handlers', _nco, 10)
+    rep.ok('C12.R25', 'sftp.SFTPServerHandler|awaitable results awaited',
+           f'{_nco} isawaitable tests, no iscoroutine')
+    rep.rule('C12.R26', 'SFTPError.construct: "no error" is returned only '
+             'for code FX_OK - the return of None is reached only on the '
+             'true edge of code == FX_OK, also for a status without '
+             'reason / language strings: a bare FX_FAILURE answering a '
+             'WRITE must fail that write')
+    _fct = k.func('sftp.SFTPError.construct')
+    _gct = k.cfg(_fct)
+    _rn = [n for n in _gct.nodes if n.kind == 'return' and (
+        n.ast.value is None or (isinstance(n.ast.value, ast.Constant) and
+                                n.ast.value.value is None))]
+    rep.floor('C12.R26', 'returns of "no error"', len(_rn), 1)
+    for _n in _rn:
+        _w = _gct.guarded_by(_n.id, lambda x: (
+            (True if isinstance(x.ast.ops[0], ast.Eq) else False)
+            if x.kind == 'atom' and isinstance(x.ast, ast.Compare) and
+            len(x.ast.ops) == 1 and isinstance(
+                x.ast.ops[0], (ast.Eq, ast.NotEq)) and
+            {dotted(x.ast.left), dotted(x.ast.comparators[0])} ==
+            {'code', 'FX_OK'} else None))
+        rep.check(_w is None, 'C12.R26', key(_fct, 'success only for FX_OK'),
+                  'return None guarded by code == FX_OK',
+                  'a status without strings is taken as success whatever '
+                  'its code: put() and write() report success for a block '
+                  'the server refused', k.loc(_fct, _n),
+                  _gct.describe_path(_w) if _w else None)
